@@ -18,6 +18,7 @@ RULE = ("cases = one write of one value into one field of one generated layout (
         "for fields up to 8 bits (quick) / 12 bits (thorough), boundary + random above; initial frames all-zero, all-one, "
         "random. Signature = (type, offset mod 8, aligned?, full/partial length, value class, initial frame class); "
         "non-trivial = frame has more than one field or the offset is non-zero.")
+RULE += (" " + 'Widened later: a fourth initial frame arriving through on_message, mappings learnt via read() including record members, a failed read() half-way, and a structure contract on PdoMap (offsets back to back, length, buffer size) evaluated whenever read/add_variable return or raise.')
 ASSUMPTIONS = ["REAL fields are mapped at full length only", "BOOLEAN mapped as one bit",
                "sub-byte lengths only for BOOLEAN/INTEGER8/UNSIGNED8 (as the property states)"]
 REQUIRED = {"pdo_bits.get": 2000, "pdo_bits.set": 1000}
